@@ -8,7 +8,7 @@ import os
 
 import numpy as np
 
-from . import common, l1, oprun, zoo
+from . import c05_spread, common, l1, oprun, zoo
 
 PID = "C05"
 CANARY = 999999
@@ -103,6 +103,8 @@ def coq_eval(pairs):
 
 
 def replay(rp):
+    if rp.get("sub") == "c05_spread":
+        return c05_spread.replay(rp)
     ops = [zoo.build(rp["family"], p) for p in (rp["params_ref"], rp["params_var"])]
     if rp.get("kind") == "error-behaviour":
         rs = [{"family": rp["family"], "params": p} for p in (rp["params_ref"], rp["params_var"])]
@@ -173,10 +175,14 @@ def main(tier):
                             {"family": fam, "params_ref": ref["params"], "params_var": m["params"], "direction": direction, "unit": int(col),
                              "row": int(r), "ref_value": str(ref[key][r, col]), "var_value": str(m[key][r, col])})
     fams = sorted(set(k[0] for k in G))
-    R.cov.update(obligations=len(thms) + len(pairs), discharged=len(thms) + len(pairs) - len(codes),
+    sp = c05_spread.run(R, tier)      # Spread / Radon family: numpy vs numba vs on-the-fly against the Coq model of both kernels
+    thms = thms + sp["theorems"]
+    axioms = sorted(set(axioms) | set(sp["axioms"]))
+    R.cov.update(obligations=len(thms) + len(pairs) + sp["configurations"], discharged=len(thms) + len(pairs) - len(codes) + sp["discharged"],
+                 spread_part={k: v for k, v in sp.items() if k in ("configurations", "evaluations", "distinct_nontrivial")},
                  checker_cmd="make -C coq + coqc Props/C05.v (Print Assumptions) + coqc .work/C05/pairs_*.v (vm_compute)",
                  theorems=thms, axioms_reported=axioms,
-                 evaluations=2 * len(pairs) + nerr, distinct_nontrivial=sum(1 for p in pairs if np.abs(p["A0"]).max(initial=0) > 0),
+                 evaluations=2 * len(pairs) + nerr + sp["evaluations"], distinct_nontrivial=sum(1 for p in pairs if np.abs(p["A0"]).max(initial=0) > 0) + sp["distinct_nontrivial"],
                  rule="zoo configurations grouped by (family, parameters minus the implementation-selecting keys %s); one pair per non-reference member; forward and adjoint matrices compared entrywise in Coq within 1e-9(1+|.|); plus accepted-vs-rejected on wrong-size inputs; non-trivial = pair whose reference matrix is non-zero" % json.dumps(ENGINE_KEYS),
                  groups=len(G), families=fams, pairs_per_family={f: sum(1 for i in meta if meta[i][0] == f) for f in fams})
     R.samples = [{"family": meta[i][0], "reference": meta[i][1]["params"], "variant": meta[i][2]["params"]} for i in list(meta)[::max(1, len(meta) // 6)]]
